@@ -36,6 +36,7 @@ var defaultExec = []string{
 	"github.com/multiformats/go-multihash",
 	"github.com/multiformats/go-varint",
 	"github.com/go-jose/go-jose/v3",
+	"github.com/trustbloc/did-go/doc/did", "github.com/trustbloc/did-go/vdr/api",
 	"unicode/utf8", "unicode/utf16", "unicode", "container/list", "errors", "bytes", "strings", "sort", "slices", "cmp", "math/bits", "strconv",
 	"github.com/pkg/errors", "encoding/binary", "encoding/base64", "internal/bytealg", "internal/stringslite", "math", "internal/itoa",
 }
